@@ -66,4 +66,132 @@ def docRowOK (row : String × String) : Bool :=
   | none => false
   | some s => if row.2 == "-" then s.calls.isEmpty else s.calls.any (apiMatches row.2)
 
+/-! ### the API call with its arguments -/
+
+/-- **The documented API call of a wire command, with its arguments**: the one repository call the
+command object makes for the parsed fields (`none`: the command touches no repository, or the
+request is outside the arithmetic domain of the model). A readable table of C13's mapping. -/
+def apiCallOf (cmd : Cmd) (oracle : Option Bytes) : Option Op :=
+  match cmd with
+  | .ok | .config .. | .lolwut _ | .unknown | .echo _ | .ping _ | .select _ => none
+  | .dbSize => some .keyLen
+  | .del keys => some (.keyDelete keys)
+  | .exists keys => some (.keyCount keys)
+  | .expire key ttl => some (.keyExpire key ttl)
+  | .expireAt key at_ => some (.keyExpireAt key at_)
+  | .flushDB => some .keyDeleteAll
+  | .keys pattern => some (.keyKeys pattern)
+  | .persist key => some (.keyPersist key)
+  | .randomKey => some (.keyRandom oracle)
+  | .rename key newKey => some (.keyRename key newKey)
+  | .renameNX key newKey => some (.keyRenameNX key newKey)
+  | .scan cursor match_ count ktype => some (.keyScan cursor match_ (toTypeID ktype) count)
+  | .ttl key | .type key => some (.keyGet key)
+  | .lindex key index => some (.listGet key index)
+  | .linsert key where_ pivot elem =>
+    some (if where_ == asciiBytes "before" then .listInsertBefore key pivot elem else .listInsertAfter key pivot elem)
+  | .llen key => some (.listLen key)
+  | .lpop key => some (.listPopFront key)
+  | .lpush key elem => some (.listPushFront key elem)
+  | .lrange key start stop => if !limitArithSafe start stop then none else some (.listRange key start stop)
+  | .lrem key count elem =>
+    some (if count > 0 then .listDeleteFront key elem count
+          else if count < 0 then .listDeleteBack key elem (wrap64 (-count))
+          else .listDelete key elem)
+  | .lset key index elem => some (.listSet key index elem)
+  | .ltrim key start stop => if !limitArithSafe start stop then none else some (.listTrim key start stop)
+  | .rpop key => some (.listPopBack key)
+  | .rpoplpush src dst => some (.listPopBackPushFront src dst)
+  | .rpush key elem => some (.listPushBack key elem)
+  | .get key | .strlen key => some (.strGet key)
+  | .getSet key value => some (.strSetWith key value {})
+  | .incr key delta | .incrBy key delta => some (.strIncr key delta)
+  | .incrByFloat key delta => match delta with | .fin d => some (.strIncrFloat key d) | _ => none
+  | .mget keys => some (.strGetMany keys)
+  | .mset items => some (.strSetMany items)
+  | .set key value ifNX ifXX get ttl at_ keepTTL =>
+    if !ifNX && !ifXX && !get && !keepTTL && at_.isNone then some (.strSetExpires key value ttl)
+    else some (.strSetWith key value
+      { ifExists := ifXX, ifNotExists := !ifXX && ifNX, ttl := if ttl > 0 then ttl else 0,
+        atMs := if ttl > 0 then none else at_, keepTTL := !(ttl > 0) && at_.isNone && keepTTL })
+  | .setEX key value ttl => some (.strSetExpires key value ttl)
+  | .setNX key value => some (.strSetWith key value { ifNotExists := true })
+  | .hdel key fields => some (.hashDelete key fields)
+  | .hexists key field => some (.hashExists key field)
+  | .hget key field => some (.hashGet key field)
+  | .hgetAll key => some (.hashItems key)
+  | .hincrBy key field delta => some (.hashIncr key field delta)
+  | .hincrByFloat key field delta => match delta with | .fin d => some (.hashIncrFloat key field d) | _ => none
+  | .hkeys key => some (.hashFields key)
+  | .hlen key => some (.hashLen key)
+  | .hmget key fields => some (.hashGetMany key fields)
+  | .hmset key items | .hset key items => some (.hashSetMany key items)
+  | .hscan key cursor match_ count => some (.hashScan key cursor match_ count)
+  | .hsetNX key field value => some (.hashSetNotExists key field value)
+  | .hvals key => some (.hashValues key)
+  | .sadd key members => some (.setAdd key members)
+  | .scard key => some (.setLen key)
+  | .sdiff keys => some (.setDiff keys)
+  | .sdiffStore dest keys => some (.setDiffStore dest keys)
+  | .sinter keys => some (.setInter keys)
+  | .sinterStore dest keys => some (.setInterStore dest keys)
+  | .sismember key member => some (.setExists key member)
+  | .smembers key => some (.setItems key)
+  | .smove src dest member => some (.setMove src dest member)
+  | .spop key => some (.setPop key oracle)
+  | .srandMember key => some (.setRandom key oracle)
+  | .srem key members => some (.setDelete key members)
+  | .sscan key cursor match_ count => some (.setScan key cursor match_ count)
+  | .sunion keys => some (.setUnion keys)
+  | .sunionStore dest keys => some (.setUnionStore dest keys)
+  | .zadd key items => some (.zAddMany key items)
+  | .zcard key => some (.zLen key)
+  | .zcount key min max => some (.zCount key min max)
+  | .zincrBy key delta member => some (.zIncr key member delta)
+  | .zinter keys aggregate _ => some (.zInter keys (aggOf aggregate))
+  | .zinterStore dest keys aggregate => some (.zInterStore dest keys (aggOf aggregate))
+  | .zrange key start stop byScore rev offset count _ =>
+    if byScore then some (.zRangeScore key start stop rev offset count)
+    else match truncInt start, truncInt stop with
+      | some a, some b => some (.zRangeRank key a b rev)
+      | _, _ => none
+  | .zrangeByScore key min max _ offset count => some (.zRangeScore key min max false offset count)
+  | .zrank key member _ => some (.zGetRank key member)
+  | .zrem key members => some (.zDelete key members)
+  | .zremRangeByRank key start stop => some (.zDeleteRank key start stop)
+  | .zremRangeByScore key min max => some (.zDeleteScore key min max)
+  | .zrevRange key start stop _ => some (.zRangeRank key start stop true)
+  | .zrevRangeByScore key min max _ offset count => some (.zRangeScore key min max true offset count)
+  | .zrevRank key member _ => some (.zGetRankRev key member)
+  | .zscan key cursor match_ count => some (.zScan key cursor match_ count)
+  | .zscore key member => some (.zGetScore key member)
+  | .zunion keys aggregate _ => some (.zUnion keys (aggOf aggregate))
+  | .zunionStore dest keys aggregate => some (.zUnionStore dest keys (aggOf aggregate))
+
+theorem call_congr' (c : ParsedCmd) (r r' : Runner) (op : Op) (now : Int) (db : DB)
+    (onOk : Val → Option (List Token)) (onErr : Err → Option (List Token × Bool)) (bag : Nat)
+    (h : r op now db = r' op now db) :
+    call c r op now db onOk onErr bag = call c r' op now db onOk onErr bag := by
+  unfold call; rw [h]
+
+macro "api_call_step" h:ident : tactic =>
+  `(tactic| (apply call_congr'; apply $h; simp [apiCallOf, *]))
+
+/-- **Each wire command is its API call**: the reply and the resulting tables of the wire model are a
+function of what that ONE repository call — with the arguments `apiCallOf` lists — returns on the
+same data at the same instant, and of nothing else the repository could do. -/
+theorem run_is_the_api_call (c : ParsedCmd) (r r' : Runner) (now : Int) (db : DB) (o : Option Bytes)
+    (h : ∀ op, apiCallOf c.cmd o = some op → r op now db = r' op now db) :
+    run c r now db o = run c r' now db o := by
+  obtain ⟨name, args, cmd⟩ := c
+  cases cmd <;> simp only [run] <;>
+    first
+    | rfl
+    | api_call_step h
+    | (split <;> first
+        | rfl
+        | api_call_step h
+        | (split <;> first
+            | rfl
+            | api_call_step h))
 end Redka.Wire
